@@ -96,6 +96,10 @@ func String(label string) string { return string(bytesOf(next(label))) }
 // single characters and a-z style ranges (e.g. "a-zA-Z0-9.:-").
 func StringOf(label, charset string, maxLen int) string { return string(bytesOf(next(label))) }
 
+// Chars is a string of exactly n characters over charset whose characters are individual symbolic
+// codes: string library calls and regular expressions on it are executed position by position.
+func Chars(label, charset string, n int) string { return string(bytesOf(next(label))) }
+
 func Bytes(label string, maxLen int) []byte {
 	b := bytesOf(next(label))
 	if b == nil {
